@@ -161,7 +161,9 @@ class Ctx:
         class _F:
             def __enter__(self_inner):
                 self_inner.old = ctx._filter
-                ctx._filter = pred
+                outer = self_inner.old
+                # nested filters intersect: an instance must pass every enclosing filter
+                ctx._filter = pred if outer is None else (lambda k, _o=outer, _p=pred: _o(k) and _p(k))
 
             def __exit__(self_inner, *a):
                 ctx._filter = self_inner.old
